@@ -549,6 +549,26 @@ func stringLess(rsi, rsj string, desc bool) int {
 func CellString(s string) *string {
 	return &s
 }
+
+// cellKind returns a number identifying the kind of value held by the cell.
+func cellKind(c *Cell) int {
+	switch {
+	case c == nil:
+		return 0
+	case c.S != nil:
+		return 1
+	case c.N != nil:
+		return 2
+	case c.P != nil:
+		return 3
+	case c.L != nil:
+		return 4
+	case c.T != nil:
+		return 5
+	}
+	return 0
+}
+
 func rowLess(ri, rj Row, c SortConfig) bool {
 	if c == nil {
 		return false
@@ -584,6 +604,18 @@ func rowLess(ri, rj Row, c SortConfig) bool {
 		si, sj = ci.T.Format(time.RFC3339Nano), cj.T.Format(time.RFC3339Nano)
 	}
 	l := stringLess(si, sj, cfg.Desc)
+	if ki, kj := cellKind(ci), cellKind(cj); ki != kj {
+		// Values of different kinds have no common textual form to compare.
+		// They are ordered by kind, so that sorting remains a total order
+		// and equal values end up next to each other.
+		l = 1
+		if ki < kj {
+			l = -1
+		}
+		if cfg.Desc {
+			l *= -1
+		}
+	}
 	if l < 0 {
 		return true
 	}
